@@ -240,6 +240,40 @@ def run_enum(shard: dict, res: Res) -> None:
                     stmt = render(m, shape, suffix, text, "lower")
                     judge(res, supported, m, shape, suffix, v, stmt, f"*=0x008000\n{stmt}\n", None, True)
                     res.count("wider_than_24_bit_cases")
+        # every statement is encoded on its own: the same unsuffixed instruction inside a loop whose variable crosses 0xFF/0x100 (0xFFFF/0x10000)
+        for shape in ("dir", "dir_x", "imm"):
+            for lo, hi, base in ((0xFE, 0x102, 0), (0, 3, 0xFFFE)):
+                vals = [base + k for k in range(lo, hi)]
+                encs = [isa.encode(m, SHAPE_BY_NAME[shape][2], isa.natural_width(v), v) for v in vals]
+                operand = "zk" if base == 0 else f"{base:#x} + zk"
+                stmt = render(m, shape, "", operand, "lower")
+                src = f"*=0x008000\n.for zk := {lo:#x}, {hi:#x} {{\n{stmt}\n}}\n"
+                r3 = assemble(src)
+                res.evals += 1
+                res.count("loop_width_cases")
+                wit3 = {"m": m, "shape": shape, "suffix": "", "value": vals[0], "stmt": stmt, "src": src, "loop": [lo, hi, base]}
+                if r3.ok:
+                    res.distinct_count += 1
+                    got3 = b"".join(b for _, b in r3.blocks)
+                    if any(e is None for e in encs):
+                        res.violate("undefined-accepted", f"`{stmt}` for zk in {lo:#x}..{hi - 1:#x} assembled to {got3.hex()} although the ISA defines no such instruction for every value", wit3)
+                    elif got3 != b"".join(encs):
+                        res.violate("wrong-operand-bytes", f"`{stmt}` for zk in {lo:#x}..{hi - 1:#x} assembled to {got3.hex()}, statement by statement the ISA says {b''.join(encs).hex()}", wit3)
+                elif all(key_of(m, shape, "", v) in supported for v in vals):
+                    res.distinct_count += 1
+                    res.violate("supported-rejected", f"`{stmt}` for zk in {lo:#x}..{hi - 1:#x}: every iteration is a supported instruction but the loop is rejected: {r3.err_kind}: {r3.err_text[:160]}", wit3)
+        # the width of an unsuffixed operand follows its value, not the way the expression is written (a mask at the end, a symbol inside)
+        for zv in (0x7E0010, 0x002100, 0x12, 0x1234FF):
+            for mask in (0xFF, 0xFFFF, 0xFFFFFF):
+                for tpl_e in ("zmsym & {m}", "{m} & zmsym", "(zmsym & {m})", "zmsym + 0 & {m}", "zmsym >> 0 & {m}"):
+                    text = tpl_e.format(m=hex(mask))
+                    v = zv & mask
+                    for shape in ("dir", "dir_x", "imm", "ind_y", "lng"):
+                        if tpl_e.startswith("(") and shape in ("dir", "dir_x"):
+                            continue          # `(e)` alone denotes the indirect shape
+                        stmt = render(m, shape, "", text, "lower")
+                        judge(res, supported, m, shape, "", v, stmt, f"*=0x008000\nzmsym := {zv:#x}\n{stmt}\n", None, True)
+                        res.count("masked_symbol_cases")
         # an operand that is a symbol keeps meaning that symbol whatever its name (register letters, size letters)
         for name in REGISTER_LIKE_NAMES:
             for shape, tpl, isa_shape in SHAPES:
@@ -342,6 +376,16 @@ def run_shard(shard: dict) -> Res:
 
 def replay(w: dict) -> Res:
     res = Res()
+    if w.get("loop"):
+        lo, hi, base = w["loop"]
+        vals = [base + k for k in range(lo, hi)]
+        encs = [isa.encode(w["m"], SHAPE_BY_NAME[w["shape"]][2], isa.natural_width(v), v) for v in vals]
+        r3 = assemble(w["src"])
+        res.case(w["src"], True)
+        if (r3.ok and (any(e is None for e in encs) or b"".join(b for _, b in r3.blocks) != b"".join(e for e in encs if e))) or \
+                (not r3.ok and all(key_of(w["m"], w["shape"], "", v) in load_supported() for v in vals)):
+            res.violate("loop-statement-by-statement", f"`{w['stmt']}` in the loop: ok={r3.ok} {r3.err_text[:120]}", w)
+        return res
     if w["src"].count("\n") > 2 and ":=" not in w["src"]:
         r2 = assemble(w["src"])
         res.case(w["src"], True)
